@@ -67,10 +67,17 @@ PROPS = {
             "optional_classes": ["unaligned_address", "negative_index", "ordinary"]},
     "C10": {"id": "C10", "source": "c10.cpp", "files": FLT_VEC_FILES + SCALAR_FILES[8:], "min_configs": {"quick": 8, "thorough": 30},
             "cxxflags": ["-frounding-math", "-ffp-contract=off"], "ref_sources": FPREF, "max_success": {"quick": 1000, "thorough": 10000}},
+    "C11": {"id": "C11", "source": "c11.cpp", "files": FLT_VEC_FILES + SCALAR_FILES[8:], "min_configs": {"quick": 8, "thorough": 30},
+            "cxxflags": ["-frounding-math", "-ffp-contract=off"], "ref_sources": FPREF, "optional_classes": ["zero_sign_differs_from_libm"]},
     "C02": {"id": "C02", "source": "c02.cpp", "files": INT_VEC_FILES + FLT_VEC_FILES, "min_configs": {"quick": 8, "thorough": 30}, "digest_binding": True},
 }
 
 MANIFEST_TEXT = {
+    "C11": {
+        "technique": "property-based testing: strided (quick) / exhaustive (thorough) sweep of all 2^32 binary32 patterns, stratified binary64 values and lattice + rapidcheck, differential against glibc under the same rounding mode; FP-environment invariant (MXCSR control bits, x87 control word) observed around every call and around a sample of 40 other AVEL operations under each rounding mode and FTZ/DAZ setting",
+        "level": "Generated-input search: every 1031st binary32 pattern with a seed-dependent phase (quick) or all 2^32 (thorough) for ceil/floor/trunc/round and for nearbyint/rint under each of the four rounding modes, every float vector width and the scalar overloads; binary64: every exponent x boundary mantissas, half-integers and neighbours around 2^51..2^53. Comparison: NaN->NaN; integral/infinite inputs must come back as the same number; otherwise numerically equal to libm (a differing zero sign is counted, not flagged, because the statement says 'the same number'). Environment: control state before == after, for the rounding functions and for arithmetic, comparisons, classification, frexp/ldexp/ilogb, integer div/average/etc.",
+        "note": "Trusted: glibc rounding functions and fesetround as reference, host CPU, compilers honouring -frounding-math. ceil/floor/trunc/round are compared in round-to-nearest only (the statement quantifies the four modes over nearbyint/rint). With FTZ/DAZ enabled only the environment is compared, not values.",
+    },
     "C10": {
         "technique": "property-based testing: float lattice cross products + rapidcheck bit patterns x four rounding modes, differential against the scalar IEEE operation executed in a reference TU compiled without AVEL (-O0 -frounding-math), binary64 second opinion for binary32, per build configuration",
         "level": "Generated-input search over operand pairs (every exponent x boundary mantissas, zeros, subnormals, infinities, quiet/signalling NaNs, halfway cases, random patterns) x {+,-,*,/, compound forms, ++/--, unary minus, sqrt, scalar sqrt} x 4 rounding modes on every float/double vector type incl. width 1, every configuration; results compared bit-for-bit (NaN by NaN-ness; unary minus bit-for-bit incl. NaN payload) with the hardware/glibc scalar result under the same mode; binary32 + - * / sqrt also against a binary64 recomputation rounded once (disagreement between the two oracles = harness error, not a violation); MXCSR/x87 control words compared before/after.",
